@@ -286,6 +286,9 @@ func (w *world) enabled(al alphabet, abortsUsed int) []erEvent {
 	sort.Ints(parkedIdx)
 	for _, i := range parkedIdx {
 		evs = append(evs, erEvent{Kind: "complete", T: i})
+		if w.cfg.AbortMix && w.cfg.AbortResp != 2 && w.parked[i].tb.Err() != tomb.ErrStillAlive {
+			evs = append(evs, erEvent{Kind: "completeR", T: i})
+		}
 	}
 	for _, p := range w.ensurePerms() {
 		evs = append(evs, erEvent{Kind: "ensure", Perm: p})
@@ -325,6 +328,12 @@ func (w *world) apply(ev erEvent) {
 	case "ensure":
 		w.ensure(ev.Perm)
 	case "complete":
+		w.complete(ev.T)
+	case "completeR":
+		if w.forceRetry == nil {
+			w.forceRetry = map[int]bool{}
+		}
+		w.forceRetry[ev.T] = true
 		w.complete(ev.T)
 	case "resolve":
 		w.resolveWait(ev.T)
